@@ -704,41 +704,73 @@ def validate(traces_by_n, dev, label, chunk=7000):
     return verdicts, results
 
 
+def culprit(clause, pos, verdict, devset):
+    """Deviation of devset that explains `clause` failing at step pos of an execution judged under Dev=devset:
+    the model reproduced the execution up to there and a deviation able to break the clause fired before."""
+    _, _, mpos, fl, first_fire = verdict
+    if not (mpos == 0 or mpos > pos):
+        return None
+    if clause == "ElectionSafety":
+        cands = ["same_term_ae_clears_vote"]
+    elif clause == "FutureTruth":
+        cands = ["future_keyed_by_index_only"]
+    else:
+        # wrong commits; a double leader explains them only if it was actually observed before
+        cands = ["match_is_follower_last_index", "stale_term_ae_response"]
+        if any(c == "ElectionSafety" and p <= pos for c, p in fl):
+            if clause == "LogMatching":      # same index and term, different entry: two leaders of a term
+                cands.insert(0, "same_term_ae_clears_vote")
+            else:
+                cands.append("same_term_ae_clears_vote")
+    hit = [d for d in cands if d in devset and 0 < first_fire.get(d, 0) <= pos]
+    return hit[0] if hit else None
+
+
 def classify(chk, failing, traces, meta, known):
     """failing: {tid: (verdict, pos, mpos, [(clause, first step)], {deviation: first step it fired})}, judged
     by RaftTrace.tla under Dev = registered deviations.
     A clause failing at a step before any model mismatch belongs to an execution the as-code model
     reproduces exactly.  It is a known finding (key = deviation) only if a registered deviation that is able to
     break this clause (ATTRIBUTION, checked by TLC in the thorough tier) fired at or before that step, i.e.
-    switching it off would have changed what the handlers computed in this very execution.  A clause failing
-    after a model mismatch, or with no such deviation involved, is keyed by the clause name: a VIOLATION."""
-    for tid, (verdict, pos0, mpos, fl, first_fire) in sorted(failing.items()):
+    switching it off would have changed what the handlers computed in this very execution.
+    Failures not explained that way are judged again with each deviation of the spec that is NOT registered
+    (e.g. a finding that was fixed and has reappeared) switched on in addition: if that model reproduces the
+    execution and the deviation is a culprit, the VIOLATION is keyed by that deviation; otherwise by the
+    clause name."""
+    todo = [(tid, clause, pos) for tid, v in sorted(failing.items()) for clause, pos in v[3]
+            if culprit(clause, pos, v, known) is None]
+    alt = {}
+    if todo:
+        by_n = {}
+        for tid in sorted({t for t, _, _ in todo}):
+            by_n.setdefault(meta[tid]["n"], []).append(traces[tid])
+        for d in DEVIATIONS:
+            if d not in known:
+                alt[d], r2 = validate(by_n, sorted(known + [d]), f"C11_reattr_{d[:10]}")
+                for r in r2:
+                    chk.add_tlc(f"RaftTrace Dev=registered + {d} (attribution of unexplained failures)", r,
+                                count=False)
+    for tid, v in sorted(failing.items()):
+        verdict, pos0, mpos, fl, first_fire = v
         for clause, pos in fl:
             st = traces[tid]["steps"][pos - 1]
             what = (f"PROP:{clause} at step {pos} ({st['a']} on n{st.get('n', '?')}) of a "
                     f"{meta[tid]['origin']} execution ({meta[tid]['n']} nodes)")
             replay = {"meta": meta[tid], "trace": traces[tid], "verdict": [verdict, pos0, mpos, fl, first_fire]}
-            reproduced = mpos == 0 or mpos > pos
-            if clause == "ElectionSafety":
-                cands = ["same_term_ae_clears_vote"]
-            elif clause == "FutureTruth":
-                cands = ["future_keyed_by_index_only"]
-            else:
-                # wrong commits; a double leader explains them only if it was actually observed before
-                cands = ["match_is_follower_last_index", "stale_term_ae_response"]
-                if any(c == "ElectionSafety" and p <= pos for c, p in fl):
-                    if clause == "LogMatching":      # same index and term, different entry: two leaders of a term
-                        cands.insert(0, "same_term_ae_clears_vote")
-                    else:
-                        cands.append("same_term_ae_clears_vote")
-            hit = [d for d in cands if d in known and 0 < first_fire.get(d, 0) <= pos] if reproduced else []
-            if hit:
-                d = hit[0]
+            d = culprit(clause, pos, v, known)
+            if d:
                 chk.violation(d, f"{what}; the model with the registered deviations reproduces the execution "
                                  f"exactly, deviation {d} ({SITES.get(d, '')}) fired at step {first_fire[d]}",
                               replay)
+                continue
+            for d2, v2 in alt.items():
+                if tid in v2 and culprit(clause, pos, v2[tid], sorted(known + [d2])) == d2:
+                    chk.violation(d2, f"{what}; reproduced exactly by the model with the UNREGISTERED deviation "
+                                      f"{d2} ({SITES.get(d2, '')}) switched on, which fired at step "
+                                      f"{v2[tid][4][d2]}", replay)
+                    break
             else:
-                why = f"code and model already disagree at step {mpos}" if not reproduced else \
+                why = f"code and model already disagree at step {mpos}" if not (mpos == 0 or mpos > pos) else \
                     "the model reproduces it, but no registered deviation able to break this clause fired"
                 chk.violation(clause, f"{what}; {why}", replay)
 
